@@ -20,7 +20,8 @@ const dhcpRel = "handlers/dhcp4_spoofer"
 
 // shortLease abbreviates the lease expression of handleRequest in guard texts.
 func shortLease(s string) string {
-	return strings.ReplaceAll(s, "(dhcp4_spoofer.Handler).findOrCreate(recv,dhcp4_spoofer.getClientID(arg1,arg2),(packet.DHCP4).CHAddr(arg1),local(nameEntry).Name)", "LEASE")
+	// whatever the arguments of the lookup are spelled like
+	return leaseCallRe.ReplaceAllString(s, "LEASE")
 }
 
 // shortLeaseD: the lease of handleDiscover in short form.
@@ -834,11 +835,29 @@ func ackJoin(hr *ssa.Function) *ssa.BasicBlock {
 	if ack == nil || lookup == nil {
 		return nil
 	}
+	// the join of the `switch operation` arms: every predecessor runs under a test of the operation code (φ == k)
 	var join *ssa.BasicBlock
 	for d := ack.Block(); d != nil && d != lookup.Block(); d = d.Idom() {
-		if len(d.Preds) > 1 && lookup.Block().Dominates(d) {
+		if len(d.Preds) < 2 || !lookup.Block().Dominates(d) {
+			continue
+		}
+		all := true
+		for _, p := range d.Preds {
+			arm := false
+			for _, g := range guardsOf(p.Instrs[len(p.Instrs)-1]) {
+				if opCodeTest.MatchString(strings.TrimPrefix(g.Text, "!")) {
+					arm = true
+				}
+			}
+			if !arm {
+				all = false
+			}
+		}
+		if all {
 			join = d
 		}
 	}
 	return join
 }
+
+var opCodeTest = regexp.MustCompile(`^\(φ==\d+\)$`)
